@@ -28,7 +28,9 @@ import (
 
 func c03E0() []zn.Expr {
 	// (the fourth leaf is a text with a real line break inside: the statement goes on after it)
-	return []zn.Expr{zn.Var{Name: "A"}, zn.Num{Lit: "1"}, zn.Str{Val: "s"}, zn.Str{Val: "u\nv"}}
+	// (the fifth is a name that begins like a comment but is none; the sixth a text with a
+	// variation selector, an invisible character that is part of the value all the same)
+	return []zn.Expr{zn.Var{Name: "A"}, zn.Num{Lit: "1"}, zn.Str{Val: "s"}, zn.Str{Val: "u\nv"}, zn.Var{Name: "注册"}, zn.Str{Val: "心\uFE0F"}}
 }
 
 // expression forms as constructors over child slots
